@@ -522,7 +522,17 @@ func TestRelayRoundTrip(t *testing.T) {
 			big.Receive(&gostatsd.Metric{Name: "tk9", Type: gostatsd.GAUGE, Value: 1, Rate: 1, Tags: gostatsd.Tags{"blob:" + strings.Repeat("x", rapid.SampledFrom([]int{700, 1400, 1500, 3000}).Draw(t, "blob"))}, Timestamp: 1})
 			mm.Merge(big)
 		}
-		name := rapid.SampledFrom([]string{"statsdaemon/udp", "statsdaemon/tcp"}).Draw(t, "variant")
+		// two lines whose total length sits exactly around the datagram size (1470..1475 bytes including newlines)
+		if rapid.IntRange(0, 2).Draw(t, "boundary") == 0 {
+			mm = gostatsd.NewMetricMap(false)
+			total := rapid.IntRange(1468, 1476).Draw(t, "two-line-total")
+			fixed := len("tk8:1.000000|g|#blob:\n")
+			b1 := rapid.IntRange(50, total-2*fixed-50).Draw(t, "blob1")
+			b2 := total - 2*fixed - b1
+			mm.Receive(&gostatsd.Metric{Name: "tk8", Type: gostatsd.GAUGE, Value: 1, Rate: 1, Tags: gostatsd.Tags{"blob:" + strings.Repeat("x", b1)}, Timestamp: 1})
+			mm.Receive(&gostatsd.Metric{Name: "tk7", Type: gostatsd.GAUGE, Value: 1, Rate: 1, Tags: gostatsd.Tags{"blob:" + strings.Repeat("y", b2)}, Timestamp: 1})
+		}
+		name := rapid.SampledFrom([]string{"statsdaemon/udp", "statsdaemon/udp", "statsdaemon/tcp"}).Draw(t, "variant")
 		kit, err := bk.New(variant(name), bk.Options{})
 		if err != nil {
 			t.Fatalf("%v", err)
